@@ -249,7 +249,7 @@ theorem tagLoop_type (p : Enc) (fuel : Nat) (st : St) (t : TypeDecl) (par : HTyp
   rfl
 
 theorem tagLoop_object (p : Enc) (fuel : Nat) (st st' : St) (o : Obj) (b r : Bytes)
-    (h : readObject ((b ++ r).length + 1) st (b ++ r) = some (o, st', r)) :
+    (h : readObject (maxArrayDepth + 1) st (b ++ r) = some (o, st', r)) :
     tagLoop (fuel + 1) st (p.int 4 ++ (b ++ r)) = tagLoop fuel { st' with objs := st'.objs ++ [o] } r := by
   simp only [tagLoop, readInt p 4 _ (by decide), h]
   rfl
